@@ -1,7 +1,8 @@
 """C01 — tip is the head of the heaviest fully valid chain, for any delivery order.
 
 1. TLC checks ChainCore.tla exhaustively: every tree of <= 3 (quick) / 4 (thorough) blocks with per-block work and
-   verdict (ok / non-contextually bad / contextually bad), every delivery order (incl. orphans, duplicates, genesis),
+   verdict (ok / non-contextually bad / contextually bad), every delivery order (incl. orphans; thorough: one duplicate or
+   genesis delivery for 3-block trees of unit work),
    every interleaving of the ChainService / preload / verify threads: TipHeaviestValid, NeverLeaveTipForNotHeavier,
    OrphansConnected, OnlyValidAttached, Accounted, NoGhostExt. Self-test: the model of the code before the fixes
    9663883 / cc270cd (PreFix = TRUE) must violate NoGhostExt and NoPreloadPanic.
@@ -361,7 +362,7 @@ def run(tier):
     fself2 = pool.submit(model_check, c, "MC_ChainCore_prefix2.cfg", 2, 600, "NoPreloadPanic")
     extra = []
     if not quick:
-        extra = [pool.submit(model_check, c, "MC_ChainCore_3dupemit.cfg", 6, 1400)]
+        extra = [pool.submit(model_check, c, "MC_ChainCore_3dup1emit.cfg", 4, 1200)]
     # beyond the exhaustive bound: simulation of 5-block trees with two duplicates (all invariants on every state)
     fsim = pool.submit(V.tlc, PID, "MC_ChainCore", "MC_ChainCore_sim5.cfg", workers=4, simulate="num=%d" % (2000 if quick else 40000),
                        depth=150, timeout=900, tag="sim5")
